@@ -102,9 +102,21 @@ def plan_st(draw, tier):
         gen.step_any(h, gen.TRAIN_KINDS + gen.ARM_KINDS + gen.QUERY_KINDS * 3 + gen.WARM_KINDS)
     h.query()
     contextual = ops.is_contextual(cfg)
+    forced_frames = set()
+    if contextual and h.d >= 2 and draw(st.integers(0, 3)) == 0:
+        # consecutive queries of one shape, each handed over as a temporary DataFrame that is gone before the next one
+        # is built (whatever the bandit remembers about a frame must not outlive it)
+        m = draw(st.integers(2, 4))
+        for _ in range(draw(st.integers(2, 3))):
+            forced_frames.add(len(h.ops))
+            h.ops.append([draw(st.sampled_from(["predict", "predict_expectations"])),
+                          draw(gen.contexts_st(m, h.d, h.grid))])
     renders = []
-    for op in h.ops:
+    for i_op, op in enumerate(h.ops):
         r = {}
+        if i_op in forced_frames:
+            renders.append({"ctx": "dataframe"})
+            continue
         if op[0] in ops.TRAIN_OPS:
             r["dec"] = draw(st.sampled_from(["list", "ndarray", "series"]))
             rk = ["list", "ndarray_float", "series"]
@@ -220,6 +232,8 @@ def evaluate(plan, ctx):
         if caller and snap(caller) != s1:
             raise Violation("caller_object_modified", "op %d %s modified the container it was given (%r)" % (i, name, r),
                             bucket="caller_object_modified:" + name)
+        # the caller's containers are temporaries: gone before those of the next call are built
+        caller = cx = dec = rew = feats = None
         if ops.is_exc(oa) and not (name in ("predict", "predict_expectations") and not fitted):
             raise Violation("unexpected_exception", "op %d %s with lists raised %s" % (i, name, ops.short(oa)),
                             bucket="unexpected_exception:%s:%s" % (name, oa[1]))
